@@ -263,6 +263,11 @@ def check_sparse(c, cl):
         y = sum(w * p[1] for w, p in zip(cw, tri))
         if min(cw) < 1e-3:
             continue          # too close to the hull boundary
+        area = abs((tri[1][0] - tri[0][0]) * (tri[2][1] - tri[0][1]) -
+                   (tri[2][0] - tri[0][0]) * (tri[1][1] - tri[0][1]))
+        if area < 1e-3 * (1 + max(math.dist(tri[0], q) for q in tri[1:])) ** 2:
+            continue          # repeated / collinear points: the combination lies on an
+            #                   edge, possibly the hull boundary itself (not judged)
         got = float(hm.get_depth_at(x, y))
         if not (scale * zmin - eps <= got <= scale * zmax + eps):
             raise Violation(f"sparse get_depth_at({x}, {y}) = {got!r} inside the hull, "
